@@ -251,10 +251,29 @@ func genHTTP(r *c.Rng, k *Case) {
 	if r.Chance(1, 10) {
 		k.PortH = c.Pick(r, []int{8080, 1, 65535, 80})
 	}
-	if !k.fixedID && w.Err == "" && !w.ReadErr && w.Status >= 100 && w.Status <= 599 && r.Chance(1, 30) {
-		// now and then the same answer is served by a loopback server and fetched by the real client
-		w.Real, w.Redirects = true, c.Pick(r, []int{0, 0, 1, 2, 10})
+	if !k.fixedID && w.Err == "" && !w.ReadErr && w.Status >= 200 && w.Status <= 599 && w.Status != 204 && w.Status != 304 && r.Chance(1, 20) {
+		// now and then the same answer is served by a loopback server and fetched by the real client;
+		// the real client must hand over the whole body: pad the right answer and append foreign content
+		w.Real, w.Redirects = true, c.Pick(r, []int{0, 0, 1, 2, 9, 10})
 		k.Mut = "real-client+" + k.Mut
+		ka := expectedKeyAuth(k.Token, k.Acct)
+		pad := func(total int) string {
+			if total <= len(ka) {
+				return ka
+			}
+			return ka + strings.Repeat(" ", total-len(ka))
+		}
+		switch r.Intn(8) {
+		case 0:
+			w.Body = []byte(pad(c.Pick(r, []int{512, 1023, 1024, 1025, 4096, 65536})) + "<html>not the key authorization</html>")
+			k.Mut += "+padded-then-foreign"
+		case 1:
+			w.Body = []byte(pad(c.Pick(r, []int{1024, 4096, 65536, 1 << 20})) + "\n")
+			k.Mut += "+padded-ws-only"
+		case 2:
+			w.Body = []byte(strings.Repeat(" ", c.Pick(r, []int{1024, 8192})) + ka)
+			k.Mut += "+ws-then-answer"
+		}
 	}
 }
 
@@ -580,6 +599,12 @@ func genCase(r *c.Rng) *Case {
 	if r.Chance(1, 40) {
 		k.Acct = -1
 	}
+	// the authorization may have further challenges, in any stored state
+	if r.Chance(1, 4) {
+		for i, n := 0, 1+r.Intn(3); i < n; i++ {
+			k.AzSib = append(k.AzSib, c.Pick(r, []string{"pending", "invalid", "invalid", "valid"}))
+		}
+	}
 	switch {
 	case x < 30:
 		genHTTP(r, k)
@@ -649,13 +674,24 @@ func corner() []*Case {
 			out = append(out, &Case{Op: "types", IDType: t, Raw: raw})
 		}
 	}
+	// every challenge of the authorization fails: it must stay pending
+	for _, sib := range [][]string{{"invalid"}, {"invalid", "invalid"}, {"invalid", "pending"}, {"invalid", "valid"}} {
+		sib := sib
+		add(func(k *Case) {
+			k.Typ, k.Mut, k.AzSib = "http", "wrong-body-all-siblings", sib
+			k.HTTP = &HTTPW{Status: 200, Body: []byte("not the key authorization")}
+		})
+	}
 	// the real validation client (acme/client.go) against loopback servers
 	for a := 0; a < 2; a++ {
 		a := a
 		ka := expectedKeyAuth(tok, a)
 		for _, h := range []HTTPW{{Status: 200, Body: []byte(ka)}, {Status: 200, Body: []byte(ka + "\n"), Redirects: 1}, {Status: 200, Body: []byte(ka), Redirects: 9},
 			{Status: 200, Body: []byte(ka), Redirects: 10}, {Status: 200, Body: []byte(ka), Redirects: 11}, {Status: 404, Body: []byte(ka)}, {Status: 503, Body: []byte(ka)},
-			{Status: 200, Body: []byte(expectedKeyAuth(tok, a+2))}, {Status: 200, Body: []byte(ka), Refused: true}, {Status: 204}} {
+			{Status: 200, Body: []byte(expectedKeyAuth(tok, a+2))}, {Status: 200, Body: []byte(ka), Refused: true}, {Status: 204},
+			{Status: 200, Body: []byte(ka + strings.Repeat(" ", 1024-len(ka)) + "<html>foreign content</html>")},
+			{Status: 200, Body: []byte(ka + strings.Repeat("\n", 4096) + "junk")}, {Status: 200, Body: []byte(ka + strings.Repeat(" ", 70000))},
+			{Status: 200, Body: []byte(strings.Repeat(" ", 2000) + ka)}, {Status: 200, Body: []byte(ka[:len(ka)-1])}} {
 			h := h
 			h.Real = true
 			add(func(k *Case) { k.Acct, k.Typ, k.Mut, k.HTTP = a, "http", "real-client", &h })
